@@ -283,10 +283,11 @@ example : ∀ a ∈ [("fr", 1), ("de", 2)], ∀ b ∈ [("fr", 1), ("de", 2)],
 
 /-- The package-level variables of the packages reachable from document.Render that are assigned,
 incremented, appended to, indexed-assigned or deleted from OUTSIDE `init()` and variable
-initialisers (extracted syntactically from /repo on every run) are exactly the reviewed list
-`Sites.globalsAllowList`.  A new entry makes this theorem fail: new shared mutable state must be
+initialisers (extracted syntactically from /repo on every run), together with their declarations
+as written, are exactly the reviewed list `Sites.globalsAllowList`.  A new entry makes this theorem fail: new shared mutable state must be
 reviewed (guarded by a mutex? per-render?).  This is a fact check, not a proof of race freedom. -/
-theorem globals_written_eq_allow_list : WR.Gen.C15Globals.written = WR.C15.globalsAllowList.map (·.1) := by
+theorem globals_written_eq_allow_list :
+    WR.Gen.C15Globals.written = WR.C15.globalsAllowList.map (fun e => (e.1, e.2.1)) := by
   decide
 
 /-- Same for method calls whose receiver is rooted in a package-level variable (a pointer-receiver
@@ -294,6 +295,14 @@ method may write): the set equals the reviewed list `Sites.methodCallsAllowList`
 strings.Replacer, read-only map accessors, the two log.Logger values, the hyphenation mutex). -/
 theorem globals_method_calls_eq_allow_list :
     WR.Gen.C15Globals.methodCalls = WR.C15.methodCallsAllowList.map (·.1) := by
+  decide
+
+/-- Same for every USE of a package-level variable that can hold shared mutable state (map, slice,
+pointer, result of a constructor call): the (variable, kind of use) pairs equal the reviewed list
+`Sites.usesAllowList`.  A process-wide cache that is handed to the renders (`out.cache = theCache`,
+kind `value`) or a new shared table shows up here even when no syntactic write to it exists. -/
+theorem globals_uses_eq_allow_list :
+    WR.Gen.C15Globals.uses = WR.C15.usesAllowList.map (·.1) := by
   decide
 
 end WR.Props.C15
